@@ -40,7 +40,9 @@ Inductive intent :=
             (dlsettings rxdelay : N) (cflist : option (list N))
 | IWrongMIC            (* join-request of a known device, MIC wrong: MICFailed *)
 | IUnknownDevEUI       (* device not in the table: UnknownDevEUI *)
-| IMalformed           (* undecodable body / text field / unknown MessageType: anything but Success *)
+| IMalformed           (* undecodable base payload / unknown MessageType: anything but Success *)
+| IMember              (* base payload fine, a member of the typed payload undecodable: a mirrored answer
+                          message of the right type that is not Success (audit finding 1) *)
 | INone.               (* no expectation beyond mirroring and no panic *)
 
 Inductive part := PAll | PNoKeys | PKeysOnly.
@@ -49,7 +51,8 @@ Inductive case := CReq (t : table) (b : body) (obs : answer) (i : intent) (p : p
 
 Definition mirror_ok (b : body) (obs : answer) : bool :=
   match obs, b with
-  | AMsg _ _ sd rv tx _ _ _ _ _, Body r => bytes_eqb sd (r_receiver r) && bytes_eqb rv (r_sender r) && (tx =? r_txid r)
+  | AMsg _ _ sd rv tx _ _ _ _ _, Body r | AMsg _ _ sd rv tx _ _ _ _ _, BadMember r =>
+    bytes_eqb sd (r_receiver r) && bytes_eqb rv (r_sender r) && (tx =? r_txid r)
   | AMsg _ _ _ _ _ _ _ _ _ _, BadJSON => false
   | ABare _ _, _ => true
   | APanic, _ => false
@@ -60,15 +63,16 @@ Definition is_success (obs : answer) : bool :=
 
 Definition expected_mtype (b : body) (mt : ansmtype) : bool :=
   match b with
-  | Body r => if bytes_eqb (r_mtype r) s_JoinReq then ansmtype_eqb mt MJoinAns
-              else if bytes_eqb (r_mtype r) s_RejoinReq then ansmtype_eqb mt MRejoinAns
-              else ansmtype_eqb mt MHomeNSAns
+  | Body r | BadMember r =>
+    if bytes_eqb (r_mtype r) s_JoinReq then ansmtype_eqb mt MJoinAns
+    else if bytes_eqb (r_mtype r) s_RejoinReq then ansmtype_eqb mt MRejoinAns
+    else ansmtype_eqb mt MHomeNSAns
   | BadJSON => false
   end.
 
 (* the labels under which the servers share their KEK with the join server: the network server is
    identified by its NetID text (SenderID), the application server by the configured AS-KEK label *)
-Definition ns_label (b : body) : list N := match b with Body r => r_sender r | BadJSON => [] end.
+Definition ns_label (b : body) : list N := match b with Body r | BadMember r => r_sender r | BadJSON => [] end.
 Definition as_label (t : table) (d : device) : list N :=
   match assoc (d_deveui d) (tb_aslabels t) (Ok []) with Ok l => l | _ => [] end.
 
@@ -94,6 +98,7 @@ Definition prop_ok (t : table) (b : body) (obs : answer) (i : intent) (p : part)
   | IWrongMIC => match obs with AMsg _ MJoinAns _ _ _ RMICFailed [] _ k _ => keyset_eqb k no_keys | _ => false end
   | IUnknownDevEUI => match obs with AMsg _ _ _ _ _ RUnknownDevEUI [] _ k _ => keyset_eqb k no_keys | _ => false end
   | IMalformed => negb (is_success obs)
+  | IMember => match obs with AMsg _ mt _ _ _ _ _ _ _ _ => expected_mtype b mt && negb (is_success obs) | _ => false end
   | INone => match obs with ABare _ _ => false | _ => true end
   end.
 
